@@ -58,6 +58,7 @@ Print Assumptions C09_location_surplus_is_unplaced_not_misplaced.
 (* ... and a full table never blocks a call that needs no new slot *)
 Theorem C09_full_table_never_blocks_a_noop :
   forall existing reqs, count_fresh reqs = 0%nat ->
+    (forall k, In (RCarry k) reqs -> 1 <= k <= 255) ->
     (exists o, add_locations existing reqs = Ok o) /\ (exists o, add_cuwp_slots existing reqs = Ok o) /\
     (exists o, add_wav_files existing reqs = Ok o) /\ (exists o, add_switches existing reqs = Ok o).
 Proof. exact full_table_never_blocks_a_noop. Qed.
